@@ -23,7 +23,7 @@ BOUNDS = {'quick': {'operations': 4, 'options': 'the option of the partition\'s 
 OUTSIDE = ['hidden-service options', 'more than 5 operations', 'list operations that _ListWrapper does not wrap (del, clear, sort, +=): not in the statement']
 
 INITIAL = {'AvoidDiskWrites': ['0'], 'AssumeReachable': ['auto'], 'NumCPUs': ['4'], 'CircuitPriorityHalflife': ['30.0'],
-           'Nickname': ['fixed'], 'ExitNodes': ['x1'], 'Log': ['notice stdout'], 'SocksPort': ['9050'], '__SocksPort': None, 'SocksPortLines': None}
+           'Nickname': ['fixed'], 'ExitNodes': ['x1'], 'ExcludeNodes': ['{aa},{bb}'], 'Log': ['notice stdout'], 'SocksPort': ['9050'], '__SocksPort': None, 'SocksPortLines': None}
 
 
 def _scalar_value(kind, n, ival):
@@ -31,7 +31,7 @@ def _scalar_value(kind, n, ival):
     if kind == 'bool':
         return [(True, '1'), (False, '0')][n % 2]
     if kind == 'auto':
-        return [(1, '1'), (0, '0'), (-1, 'auto')][n % 3]
+        return [(1, '1'), (0, '0'), (-1, 'auto'), (-2, 'auto'), ('-7', 'auto')][n % 5]
     if kind == 'int':
         return (ival, None)      # text = str(ival), compared numerically
     if kind == 'float':
@@ -102,6 +102,14 @@ def _history(kind, ops, ival):
                     lst.extend([x, x + 'b'])
                     intended[name] += [x, x + 'b']
                 mark(name)
+            elif op == 9:
+                # assign the tracked list object read from ANOTHER list option (aliasing between options)
+                assume(listy)
+                other = cfg.__getattr__('ExcludeNodes')
+                setattr(cfg, name, other)
+                intended[name] = [str(x) for x in other]
+                assigned.add(name)
+                mark(name)
             elif op == 6:
                 cfg.Nickname = 'nick%d' % counter
                 intended['Nickname'] = ['nick%d' % counter]
@@ -150,6 +158,9 @@ def _history(kind, ops, ival):
                         wantv = [str(v) for v in intended[n]]
                         if (have or []) != wantv:
                             return R('tor-store-differs-from-intended-configuration', '%s: tor %r intended %r', n, have, wantv)
+                    untouched = tor.options['ExcludeNodes']['values']
+                    if untouched != ['{aa},{bb}']:
+                        return R('an-unchanged-option-was-altered-in-tor', 'ExcludeNodes now %r', untouched)
                     pending = []
                     assigned = set()
                     if cfg.needs_save():
@@ -172,7 +183,7 @@ def _history(kind, ops, ival):
                             return R('rejected-save-did-not-fail')
                         if not cfg.needs_save():
                             return R('changes-lost-after-rejected-save')
-            if op <= 6:
+            if op <= 6 or op == 9:
                 if len(tor.pending()) != wire_before:
                     return R('edit-wrote-to-tor-before-save', 'op %d: %r', op, tor.pending())
         # whatever is still pending must be carried by a final accepted save
@@ -194,7 +205,7 @@ def _history(kind, ops, ival):
 def _parts():
     out = []
     for ki, kind in enumerate(_KINDS):
-        firsts = (0, 1, 2, 3, 4, 5, 6) if kind in ('comma', 'lines', 'ports') else (0, 6)
+        firsts = (0, 1, 2, 3, 4, 5, 6, 9) if kind in ('comma', 'lines', 'ports') else (0, 6)
         for o1 in firsts:
             out.append({'ki': ki, 'o1': o1})
     return out
@@ -202,17 +213,18 @@ def _parts():
 
 @cond(quick=dict(parts=_parts(), budget=120))
 def c10_history4(ki: int, o1: int, o2: int, o3: int, o4: int, ival: int) -> str:
-    """4 operations on the option of kind ki (and Nickname): 0 assign, 1..5 in-place list ops, 6 assign Nickname, 7 accepted save, 8 rejected save"""
+    """4 operations on the option of kind ki (and Nickname): 0 assign, 1..5 in-place list ops, 6 assign Nickname, 7 accepted save, 8 rejected save, 9 assign the list object of another option"""
     kind = _KINDS[ki]
     if kind != 'int':
         assume(ival == 0)
     else:
         ival = api.pick_from(ival, (-1, 0, 1, 65535, 100000))
-    ops = [o1] + [api.pick(o, 0, 8) for o in (o2, o3, o4)]
+    allowed = tuple(range(10)) if kind in ('comma', 'lines', 'ports') else (0, 6, 7, 8)
+    ops = [o1] + [api.pick_from(o, allowed) for o in (o2, o3, o4)]
     return _history(kind, ops, ival)
 
 
-@cond(thorough=dict(parts=[dict(p, o2=b) for p in _parts() for b in range(9)], budget=300))
+@cond(thorough=dict(parts=[dict(p, o2=b) for p in _parts() for b in range(10)], budget=300))
 def c10_history5(ki: int, o1: int, o2: int, o3: int, o4: int, o5: int, ival: int) -> str:
     """5 operations"""
     kind = _KINDS[ki]
@@ -220,5 +232,7 @@ def c10_history5(ki: int, o1: int, o2: int, o3: int, o4: int, o5: int, ival: int
         assume(ival == 0)
     else:
         ival = api.pick_from(ival, (-1, 0, 1, 65535, 100000))
-    ops = [o1, o2] + [api.pick(o, 0, 8) for o in (o3, o4, o5)]
+    allowed = tuple(range(10)) if kind in ('comma', 'lines', 'ports') else (0, 6, 7, 8)
+    assume(o2 in allowed)
+    ops = [o1, o2] + [api.pick_from(o, allowed) for o in (o3, o4, o5)]
     return _history(kind, ops, ival)
